@@ -255,12 +255,15 @@ for st, gk, variants in [(0, 'pawn', (0, 1, 3)), (0, 'king', (0, 2)), (0, 'castl
         vd = ['the same start', 'the same squares with another half-move clock', 'the same squares without the mover\'s castling rights', 'another stated position'][v]
         reg('c13_chain_eq_s%d_%s_v%d' % (st, gk, v), 'C13', T, 3600, 16, 'chain 1: stated start %d + one symbolic push of group %s; chain 2: %s + optionally a stated concrete move; outcomes symbolic'
             % (st, gk, vd), 'c13::chain_eq::<_, %d, %d, %d>' % (st, KGCODE[gk], v), 's13', 66)
-for st, pre, gk, conc, nops in [(5, 3, None, 2, 2), (0, 3, None, 1, 2), (5, 4, None, 3, 2), (1, 3, None, 0, 3), (0, 1, 'king', 1, 2), (5, 3, None, 0, 4)]:
-    reg('c17_walker_s%d_p%d_%s_%d_%d' % (st, pre, gk or 'concrete', conc, nops), 'C17', T, 3600, 16 if nops < 4 else 28,
-        'stated chain (start %d, prefix %d)%s; %d concrete next() calls, then %d symbolic walker operations' % (st, pre, ' extended by one symbolic accepted move of group ' + gk if gk else '', conc, nops),
+WALK_LEN = {(5, 3): 4, (0, 3): 2, (5, 4): 8, (1, 3): 2, (0, 1): 1}
+for st, pre, gk, conc, nops in [(5, 3, None, 2, 2), (0, 3, None, 1, 2), (0, 3, None, 0, 2), (5, 4, None, 3, 2), (1, 3, None, 0, 3), (0, 1, 'king', 1, 2), (5, 3, None, 0, 4)]:
+    ln = WALK_LEN[(st, pre)] + (1 if gk else 0)
+    reg('c17_walker_s%d_p%d_%s_%d_%d' % (st, pre, gk or 'concrete', conc, nops), 'C17', T, 3600, 10 if nops < 4 else 28,
+        'stated chain of %d moves (start %d, prefix %d)%s; %d concrete next() calls, then %d symbolic walker operations'
+        % (ln, st, pre, ' extended by one symbolic accepted move of group ' + gk if gk else '', conc, nops),
         'c13::walker_steps::<_, %d, %d, %d, %d, %d>' % (st, pre, KGCODE[gk] if gk else 0, conc, nops), 's13', 66,
-        bounds='chains of at most 9 moves; at most %d symbolic walker operations after %d concrete ones' % (nops, conc),
-        props=['C17', 'C04'], gen_k=(0, 0))
+        bounds='chain of %d moves; %d symbolic walker operations after %d concrete ones' % (ln, nops, conc),
+        props=['C17', 'C04'], gen_k=(ln, 0))
 reg('c14_outcome_filter_table', 'C14', QT, 300, 4, 'all outcomes x 3 filters (exhaustive)', 'c14::outcome_filter_table')
 reg('c14_chain_outcome_precedence', 'C14', QT, 900, 8, 'all board outcomes x every usize count x 3 filters', 'c14::chain_outcome_precedence', 's5', 66)
 
@@ -332,7 +335,7 @@ QUICK = {
     'C16': ['c16_attackers_exact_w_by_white', 'c16_attackers_exact_w_by_black', 'c16_attackers_exact_b_by_white', 'c16_attackers_exact_b_by_black',
             'c16_check_queries_exact_w'],
     'C17': ['c17_walker_s0_p3_concrete_1_2'],
-    'C18': ['c18_mirror_move_v_w_castling', 'c18_mirror_outcome_v_w'],
+    'C18': ['c18_mirror_move_v_w_ep', 'c18_mirror_outcome_v_w'],
     'C19': ['c15_bishop_exact', 'c16_attackers_exact_w_by_black', 'c06_semilegal_validator_b_castling', 'c06_semilegal_validator_w_ep',
             'c03_make_unmake_b_pspecial', 'c11_validate_accept_b'],
 }
